@@ -9,7 +9,8 @@ ID = 'C13'
 LEVEL = 'exploration'
 RULE = ('per run an MTU (none, or straddling CBOR head boundaries for length / offset / transfer id) and 1-5 bundles (real BPv7 encodings '
         'whose total length straddles 23/24, 255/256, 65535/65536 and multiples of the MTU) sent in both directions between two real '
-        'agents, interleaved with a foreign peer emitting datagrams that combine a whole bundle, transfer segments and padding; the '
+        'agents, interleaved with a foreign peer emitting datagrams that combine a whole bundle, transfer segments and padding, and with two '
+        'foreign peers on one address (different source ports) whose interleaved segmented transfers carry the same transfer id; the '
         'network (chooser) drops, duplicates, reorders and delays datagrams according to the profile of the run; pacing runs on '
         'virtual time. Non-trivial: at least one transfer was segmented or a multi-message datagram was received; distinct = distinct '
         'event-history digests.')
@@ -17,7 +18,7 @@ COMPONENTS = dict(
     real=['udpcl.agent.Agent (both ends)', 'udpcl.config', 'cbor2', 'repo code at /repo/src working tree'],
     simulated=['GLib main contexts + monotonic / wall clocks', 'UDP sockets and network with drop / duplicate / reorder / delay (dsim.net)', 'D-Bus (dsim.dbusmod)'],
     stub=['portion (integer interval shim)', 'dtls (absent: DTLS never enabled)', 'yaml (import only)'])
-PROBES = ('xfer.segmented', 'xfer.unsegmented', 'dg.drop', 'dg.dup', 'dg.delay', 'foreign.multi_message', 'foreign.padding', 'profile.clean', 'profile.reorder',
+PROBES = ('xfer.segmented', 'xfer.unsegmented', 'dg.drop', 'dg.dup', 'dg.delay', 'foreign.multi_message', 'foreign.padding', 'foreign.twin_peers_same_ip', 'profile.clean', 'profile.reorder',
           'profile.dup', 'profile.drop', 'bundles.delivered', 'ecn.enabled')
 ASSUMPTIONS = ['"exactly one copy" is demanded only when every segment arrives exactly once (clean and reorder profiles); under duplication or loss only '
                '"never partial or corrupted"', 'MTUs below the fixed extension overhead are not generated (the sender cannot satisfy them)',
@@ -60,8 +61,13 @@ def gen(ch, tier):
         for _ in range(1 + ch.pick('nparts', 3)):
             parts.append(ch.choice('part', ('bundle', 'segment', 'segment', 'padding')))
         foreign.append(dict(parts=parts, tag=100 + ix, plen=20 + ch.pick('fplen', 200), t=1000 * ch.pick('ft', 3000), cut=ch.pick('fcut', 1 << 16)))
+    twins = []
+    for ix in range(ch.weighted('ntwin', (2, 1, 1))):
+        same_len = ch.coin('twin.same', 1, 2)
+        twins.append(dict(tag=300 + 2 * ix, plen_a=40 + ch.pick('twin.pa', 300), plen_b=None if same_len else 40 + ch.pick('twin.pb', 300),
+                          xfer_id=10 * ix + ch.pick('twin.id', 3), npieces=2 + ch.pick('twin.np', 4), order=ch.pick('twin.order', 1 << 16), t=1000 * ch.pick('twin.t', 3000)))
     ecn = ch.coin('ecn', 1, 4)
-    return dict(scenario='udpcl_pair', kind='udpcl', profile=profile, net=net, mtu=mtu, sends=sends, foreign=foreign, ecn=ecn,
+    return dict(scenario='udpcl_pair', kind='udpcl', profile=profile, net=net, mtu=mtu, sends=sends, foreign=foreign, twins=twins, ecn=ecn,
                 cfg={'*': dict(mtu_default=mtu, node_id='dtn://u/', ecn_init=ecn, ecn_feedback=ecn)})
 
 
@@ -132,10 +138,36 @@ def _drive(run, plan, har):
             stats['foreign.padding'] = 1
         har.peer_send(data, 'U2')
 
+    def do_twins(item):
+        ''' Two distinct peers on one host (same IP, source ports 4556 and 4557) each send a segmented
+        transfer with the SAME transfer id; their segments are interleaved. '''
+        import random as _random
+        body_a = bundle_bytes(item['tag'], item['plen_a'])
+        body_b = bundle_bytes(item['tag'] + 1, item['plen_a'] if item['plen_b'] is None else item['plen_b'])
+        streams = []
+        for (port, body) in ((4556, body_a), (4557, body_b)):
+            step = max(1, -(-len(body) // item['npieces']))
+            cuts = list(range(step, len(body), step))
+            streams.append([(port, seg) for seg in refudp.make_segments(item['xfer_id'], body, cuts)])
+        merged = streams[0] + streams[1]
+        _random.Random(item['order']).shuffle(merged)
+        for (port, seg) in merged:
+            with wld.as_node(har.xnode):
+                (har.xsock if port == 4556 else har.xsock2).sendto(seg, (dgram_pair.UDP_ADDR['U2'], 4556))
+        foreign_complete['U2'].extend([body_a, body_b])
+        stats['foreign.twin_peers_same_ip'] = 1
+
+    if plan.get('twins'):
+        from dsim.net import DgramSock
+        with wld.as_node(har.xnode):
+            har.xsock2 = DgramSock(har.net)
+            har.xsock2.bind((dgram_pair.UDP_ADDR['X'], 4557))
     for item in plan['sends']:
         wld.at(item['t'], do_send, item)
     for item in plan['foreign']:
         wld.at(item['t'], do_foreign, item)
+    for item in plan.get('twins', ()):
+        wld.at(item['t'], do_twins, item)
     har.run_until(4 * dgram_pair.SEC)
     har.settle(window_us=3 * dgram_pair.SEC)
     got = {side: har.user_pop_all(side) for side in ('U1', 'U2')}
@@ -239,5 +271,5 @@ def describe(run):
     plan = run.plan
     sample = dict(profile=plan['profile'], mtu=plan['mtu'], net=plan['net'], sends=plan['sends'], foreign=[item['parts'] for item in plan['foreign']],
                   datagram_sizes=[len(item[4]) for item in run.har.wire()][:40])
-    nontrivial = bool(run.stats.get('xfer.segmented') or run.stats.get('foreign.multi_message'))
+    nontrivial = bool(run.stats.get('xfer.segmented') or run.stats.get('foreign.multi_message') or run.stats.get('foreign.twin_peers_same_ip'))
     return dict(nontrivial=nontrivial, key=run.wld.digest(), sim_us=run.wld.now, steps=run.wld.steps, capped=run.wld.capped, counters=counters, sample=sample)
